@@ -23,11 +23,11 @@ func TestDebug(t *testing.T) {
 	for _, idx := range []int{25} {
 		p, _ := genProgram(prng.For(1, "programs", idx))
 		rec2 := &recorder{p: p, viol: func(a, b, c, d string) { fmt.Println("VIOL", a, b, c, d) }}
-		p.exec(p.makeInputs(), rec2)
+		p.exec(p.makeInputs(), rec2, false)
 		q := *p
 		q.Order = 1
 		rec1 := &recorder{p: &q, viol: func(a, b, c, d string) { fmt.Println("VIOL", a, b, c, d) }}
-		q.exec(q.makeInputs(), rec1)
+		q.exec(q.makeInputs(), rec1, false)
 		for i := range rec1.results {
 			fmt.Println(idx, i, p.Stmts[i].Op, p.Stmts[i].Storage, p.Stmts[i].Recv, p.Stmts[i].Tmps, rec1.results[i].V, rec1.results[i].G, "|", rec2.results[i].V, rec2.results[i].G)
 		}
